@@ -237,8 +237,14 @@ def L_index_facts(ty, t, x):
     if literal_elems(ty, t):
         return []            # computed, no defining facts needed
     j = z3.Int('j!idx')
-    return [z3.And(r >= 0, r < L_len(ty, t), L_get(ty, t, r) == x),
-            z3.ForAll([j], z3.Implies(z3.And(j >= 0, j < r), L_get(ty, t, j) != x), patterns=[L_get(ty, t, j)])]
+    body = z3.Implies(z3.And(j >= 0, j < r), L_get(ty, t, j) != x)
+    try:
+        first = z3.ForAll([j], body, patterns=[L_get(ty, t, j)])
+    except z3.Z3Exception:
+        # the list term contains an if-then-else (a list built under a condition): z3 refuses it as a pattern
+        # ("invalid pattern").  Seed C11-6 crashed the generator here (exit 3); fall back to z3's own trigger choice.
+        first = z3.ForAll([j], body)
+    return [z3.And(r >= 0, r < L_len(ty, t), L_get(ty, t, r) == x), first]
 
 
 def default_of(sort):
